@@ -26,21 +26,23 @@ def enumerate (s : Nat) (start : Int) (fuel : Nat) : M Unit :=
 def takewhile (f : Nat) (s : Nat) (fuel : Nat) : M Unit :=
   scopedIter s (Std.takewhileLoop f s fuel)
 
-/-- first loop of `itertools.dropwhile`: `true` = left by `break` after yielding the first kept item -/
-def dropPhase (f : Nat) (s : Nat) : Nat → M Bool
+/-- first loop of `itertools.dropwhile`: `some fuel'` = left by `break` after yielding the first kept
+    item (with the fuel that is left), `none` = the iterable is exhausted (`else: return`) -/
+def dropPhase (f : Nat) (s : Nat) : Nat → M (Option Nat)
   | 0 => raise .outOfFuel
   | fuel+1 => do
     match ← pull s with
-    | none => pure false
+    | none => pure none
     | some x =>
       if (← call f [x]).truthy then dropPhase f s fuel
-      else do yieldV x; pure true
+      else do yieldV x; pure (some fuel)
 
 /-- `itertools.dropwhile`: two loops over the same iterator -/
 def dropwhile (f : Nat) (s : Nat) (fuel : Nat) : M Unit :=
   scopedIter s do
-    if (← dropPhase f s fuel) then forEach s (fun x => do yieldV x; pure true) fuel
-    else pure ()
+    match ← dropPhase f s fuel with
+    | some rest => forEach s (fun x => do yieldV x; pure true) rest
+    | none => pure ()
 
 /-- `itertools.starmap` -/
 def starmap (f : Nat) (s : Nat) (fuel : Nat) : M Unit :=
